@@ -13,7 +13,7 @@ import (
 func init() {
 	register("C11", PropCheck{
 		Title:      "Sessions and data types never see each other's stored data",
-		Explain:    "Structural necessary conditions of an injective storage-key encoding: (R1) no back end re-slices a LookupKey Default/Translation so that its leading type byte is dropped before it reaches a storage primitive; (R2) Put and Get of every back end derive their keys from DbBase.ToKey applied to the caller's key (no hand-built keys); (R3) where the key builder joins the session id and the key with a separator byte, the session id is sanitised against (or escaped for) that byte; (R4) the string the filesystem back end joins to its directory is an encoding that cannot contain path separators, or is checked for them; (R5) between ToKey's result and the storage primitive the filesystem back end applies only injective transformations (string conversion, the type-byte offset, hex/base64 encoding, path.Join with the directory) - any other function applied to key-derived data is reported; (R6) the sticky context setters (SetSession/SetPrefix/SetLanguage) store their argument on every path, so no operation runs with a previous caller's session or type.",
+		Explain:    "Structural necessary conditions of an injective storage-key encoding: (R1) no back end re-slices a LookupKey Default/Translation so that its leading type byte is dropped before it reaches a storage primitive; (R2) Put and Get of every back end derive their keys from DbBase.ToKey applied to the caller's key (no hand-built keys); (R3) where the key builder joins the session id and the key with a separator byte, the session id is sanitised against (or escaped for) that byte; (R4) the string the filesystem back end joins to its directory is an encoding that cannot contain path separators, or is checked for them; (R5) between ToKey's result and the storage primitive the filesystem back end applies only injective transformations (string conversion, the type-byte offset, hex/base64 encoding, path.Join with the directory) - any other function applied to key-derived data is reported; (R6) the sticky context setters (SetSession/SetPrefix/SetLanguage) store their argument on every path, so no operation runs with a previous caller's session or type; (R8) in the filesystem back end every file opened for writing is the result of os.CreateTemp - a name unique to the write, never a fixed or shared scratch name that two stores on one directory could both write (added after seeded change C11-E); (R9) the bytes put in front of the caller's key by the session-key builder derive only from the store's own session field, through helpers and parameters at every call site - never from the request context (added after C11-F).",
 		NotDecided: "injectivity of the encoding over all strings as such; Postgres collation and BYTEA comparison; what applications store under USERDATA.",
 		Run:        runC11,
 	})
@@ -56,6 +56,8 @@ func runC11(w *core.World, r *core.Report) {
 	r.Rule("R5", "fs: only injective transformations between ToKey and the storage primitive")
 	r.Rule("R6", "context setters store their argument on every path")
 	r.Rule("R7", "the persister selects its session on the store unconditionally (WithSession, or every Save and Load)")
+	r.Rule("R8", "fs: every file opened for writing is an os.CreateTemp result (a name unique to the write, never a fixed or shared scratch name)")
+	r.Rule("R9", "the session prefix of a storage key comes only from the store's own session field (SetSession), never from the context or another source")
 
 	bes := dbBackends(w, r)
 	r.Floor("R2", "db.Db implementations", len(bes), 3)
@@ -250,4 +252,109 @@ func runC11(w *core.World, r *core.Report) {
 		r.Check(ok, "R7", "persist.(*Persister): session selected unconditionally", ws.Pos(), "db.SetSession on every path",
 			"the persister applies its session id to the store only on some paths (for instance not for the empty session): on a shared handle it then loads and overwrites the state of whichever session was selected last")
 	}
+
+	// ---- R8 -----------------------------------------------------------------------------------
+	checkUniqueTempFiles(w, r, "R8")
+	// ---- R9 -----------------------------------------------------------------------------------
+	{
+		// every value appended in front of the caller's key in the session-key builder derives from
+		// the field baseDb.sid only
+		n, bad := 0, ""
+		var badPos token.Pos
+		var fromSid func(fn *ssa.Function, v ssa.Value, d int) bool
+		fromSid = func(fn *ssa.Function, v ssa.Value, d int) bool {
+			if d > 3 {
+				return false
+			}
+			srcs := core.Sources(v)
+			if len(srcs) == 0 {
+				return false
+			}
+			for _, src := range srcs {
+				if _, f, ok := core.LoadedField(src); ok && f == "sid" {
+					continue
+				}
+				if p, ok := src.(*ssa.Parameter); ok {
+					// a helper: every library caller passes the sid field
+					pi := paramIndex(p)
+					m := 0
+					for _, caller := range w.LibFuncs {
+						for _, c := range callsToSet(caller, map[*ssa.Function]bool{fn: true}) {
+							m++
+							args := core.CallArgs(c)
+							if pi >= len(args) || !fromSid(caller, args[pi], d+1) {
+								return false
+							}
+						}
+					}
+					if m > 0 {
+						continue
+					}
+					return false
+				}
+				if c, ok := src.(*ssa.Call); ok {
+					if g := core.StaticCallee(c); g != nil && w.InLib(g) && len(g.Blocks) > 0 {
+						all := true
+						for _, in := range allInstrs(g) {
+							if ret, ok := in.(*ssa.Return); ok && len(ret.Results) > 0 {
+								if !fromSid(g, ret.Results[0], d+1) {
+									all = false
+								}
+							}
+						}
+						if all {
+							continue
+						}
+					}
+				}
+				return false
+			}
+			return true
+		}
+		for _, fn := range w.FuncsIn("db") {
+			for _, c := range core.Calls(fn) {
+				cc, ok := c.(*ssa.Call)
+				if !ok || !core.IsCallTo(cc, "builtin.append") || len(cc.Call.Args) != 2 {
+					continue
+				}
+				// append(prefix, key...) where key is a parameter named by its role: the second operand is a []byte parameter
+				if p, ok := core.Strip(cc.Call.Args[1]).(*ssa.Parameter); !ok || p.Type().String() != "[]byte" {
+					continue
+				}
+				if !strings.Contains(strings.ToLower(fn.Name()), "sessionkey") {
+					continue
+				}
+				n++
+				r.Touch(core.QName(fn))
+				if !fromSid(fn, cc.Call.Args[0], 0) {
+					bad = fmt.Sprintf("%s prepends something that is not (only) the store's session field at %s", core.QName(fn), w.Pos(cc.Pos()))
+					badPos = cc.Pos()
+				}
+			}
+		}
+		r.Check(bad == "" && n > 0, "R9", "db: session prefix comes only from the store's session field", badPos, fmt.Sprintf("%d prefixing site(s)", n),
+			"the session a key belongs to can be chosen by something other than SetSession (for instance a value found on the request context): a lookup meant for the shared namespace lands in a session's, or in another session's: "+bad)
+	}
+}
+
+// checkUniqueTempFiles (C11 R8, C19 R4): in the filesystem back end every file opened for writing is
+// the result of os.CreateTemp - a name unique to the write. A fixed, per-directory or per-process
+// scratch name is shared by every store object on that directory (one per request is a normal
+// set-up) and by every session served concurrently in the process.
+func checkUniqueTempFiles(w *core.World, r *core.Report, rule string) {
+	n, bad := 0, ""
+	var badPos token.Pos
+	for _, fn := range w.FuncsIn("db/fs") {
+		for _, c := range core.Calls(fn) {
+			switch core.CallName(c) {
+			case "os.CreateTemp":
+				n++
+			case "os.WriteFile", "io/ioutil.WriteFile", "os.Create", "os.OpenFile", "io/ioutil.TempFile":
+				bad = fmt.Sprintf("%s opens a file for writing with %s at %s", core.QName(fn), core.CallName(c), w.Pos(c.Pos()))
+				badPos = c.Pos()
+			}
+		}
+	}
+	r.Check(bad == "" && n > 0, rule, "db/fs: files are written only through os.CreateTemp", badPos, fmt.Sprintf("%d CreateTemp site(s), no other file-creating call", n),
+		"a file with a fixed or derived name is written in the store directory: two stores on one directory (one per request is a normal set-up), or two sessions served concurrently, can interleave their writes and one session's record receives another session's bytes: "+bad)
 }
